@@ -108,3 +108,50 @@ Theorem model_traces_pass_spec :
              (fst (dkg_loop dkg_consts count self limit select script 0 s0 false)) = true.
 Proof. exact Proofs.C11.model_traces_pass_spec. Qed.
 Print Assumptions model_traces_pass_spec.
+
+(* ---- the chain's TRUE height (not the loop's belief about it) ----
+   [sees script hs]: hs gives the chain's height during every iteration of the script, and the
+   scripted current-block query reports it whenever it answers (st_cur = Some c -> c = height);
+   iterations whose query fails (st_cur = None) have a height all the same.
+   [truth k s0 its hs]: every iteration that announces for attempt n runs while the chain is below
+   the announcement end block of attempt n. *)
+Fixpoint sees (script : list step) (hs : list Z) : Prop :=
+  match script, hs with
+  | [], _ => True
+  | s :: t, h :: t' => (forall c, st_cur s = Some c -> c = h) /\ sees t t'
+  | _ :: _, [] => False
+  end.
+Definition truth (k : consts) (s0 : Z) (its : list iter) (hs : list Z) : Prop :=
+  Forall2 (fun it h => forall n r, i_ann it = Some (n, r) -> h < ann_end k s0 n) its hs.
+
+(* whatever the failure history, late start, skipped attempts and failing current-block queries:
+   the signing loop takes part in attempt n only while the chain is truly below ann_end n *)
+Theorem model_respects_true_height :
+  forall (ops : list N) (count self : N) (select : N -> list N -> sel) (s0 : Z)
+         (script : list step) (hs : list Z),
+    sees script hs ->
+    let its := fst (sign_loop sign_consts ops count self select script 0 s0 false) in
+    truth sign_consts s0 its (firstn (length its) hs).
+Proof. exact Proofs.C11.model_respects_true_height. Qed.
+Print Assumptions model_respects_true_height.
+
+(* ---- the executable property evaluated on the implementation's observations ([spec_ok], which
+   judges windows by [spec_its false] and participation by the true heights [c_truth]) is sound
+   ... ---- *)
+Theorem spec_ok_sound :
+  forall c : case,
+    spec_ok c = true ->
+    (forall it, In it (c_its c) -> iter_window false (consts_of (c_kind c)) (c_start c) it) /\
+    trace_disjoint (consts_of (c_kind c)) (c_its c) /\
+    (c_kind c = KSign -> truth sign_consts (c_start c) (c_its c) (c_truth c)).
+Proof. exact Proofs.C11.spec_ok_sound. Qed.
+Print Assumptions spec_ok_sound.
+
+(* ... and holds of every run of the model on a chain whose height the script reports truthfully *)
+Theorem model_cases_pass_spec_ok :
+  forall c : case,
+    c_its c = fst (Concrete.run c) ->
+    (exists hs, sees (c_script c) hs /\ c_truth c = firstn (length (c_its c)) hs) ->
+    spec_ok c = true.
+Proof. exact Proofs.C11.model_cases_pass_spec_ok. Qed.
+Print Assumptions model_cases_pass_spec_ok.
